@@ -92,6 +92,42 @@ def run(ctx):
     ctx.assumptions += ["G and the unaligned score u are taken from the code's own integeriser, as the property allows; hashing disabled",
                         "exact p-values for nq, nt <= 3 and at most 7 pooled columns (32-bit rationals); longer motifs: scores and alignments",
                         "inputs where all similarities of a query column are equal make the integeriser divide by zero and are skipped (counted)"]
+    extras(ctx)
+
+
+def extras(ctx):
+    """Beyond the listed property: symmetric_tomtom.  SymIndex.tla (design model of which comparison lands in which cell; the
+    `<` skip rule is the spec-level mutant) and SymTomtom_Trace (recorded results against tomtom(Xs, Xs)).  A rejected event is
+    an EXTRA-FINDING: it never changes the exit status of C14."""
+    import copy
+    ctx.model_check("SymIndex", "SymIndex_MC.cfg")
+    ctx.spec_mutant("SymIndex", "SymIndex_MC_mutant.cfg", violated="DiagonalNeutral")
+    out = ctx.run_impl("x14", [dict(id=k, seed=ctx.seed * 13 + k, n=8 if ctx.quick else 100) for k in range(4)], nproc=4, timeout_s=600,
+                       env=dict(VERIF_CASE_TIMEOUT=240))
+    events = []
+    for k in range(4):
+        if out[k].get("st") in ("crashed", "timeout"):
+            print("EXTRA-FINDING: (not part of C14) symmetric_tomtom driver %s" % out[k]["st"], flush=True); continue
+        events += out[k]["events"]
+    for i, e in enumerate(events):
+        e["id"] = i + 1
+    ok = [e for e in events if e["st"] == "ok" and len(e["lens"]) > 1]
+    neg = None
+    if ok:
+        neg = copy.deepcopy(ok[0]); neg["id"] = -1; neg["sym"][0][1][1] += 1
+    bad = ctx.validate_trace("SymTomtom_Trace", "SymTomtom_Trace.cfg", ([neg] if neg else []) + events, tag="-extras")
+    if neg:
+        ctx.cov["traces_validated_against_impl"] -= 1
+        ctx.negative_control("a wrong symmetric_tomtom score must be rejected by SymTomtom_Trace", any(b[0] == -1 for b in bad))
+    found = [(i, c) for (i, c) in bad if i > 0]
+    classes = {}
+    for (i, c) in found:
+        classes.setdefault(c, []).append(i)
+    for c, ids in sorted(classes.items()):
+        e = events[ids[0] - 1]
+        print("EXTRA-FINDING: (not part of C14) symmetric_tomtom: %s (%d of %d motif lists; e.g. lengths %s, %s PWMs, n_score_bins %d, rc %s)" % (
+            c, len(ids), len(events), e["lens"], "k/8-grid" if e["grid"] else "Dirichlet", e["bins"], e["rc"]), flush=True)
+    ctx.lane("extras", events=len(events), rejected=len(found), functions=["symmetric_tomtom"], classes={c: len(v) for c, v in classes.items()})
 
 
 def replay(ctx, v):
